@@ -166,6 +166,12 @@ func parse(ctx context.Context, fileDesc *desc.FileDescriptor, mode meta.ParseSe
 	return sDsc, nil
 }
 
+// declaredUnpacked tells if the field carries an explicit [packed = false] option.
+func declaredUnpacked(field *desc.FieldDescriptor) bool {
+	opts := field.GetFieldOptions()
+	return opts != nil && opts.Packed != nil && !opts.GetPacked()
+}
+
 func parseMessage(ctx context.Context, msgDesc *desc.MessageDescriptor, cache compilingCache, recursionDepth int, opts Options, parseTarget ParseTarget) (*TypeDescriptor, error) {
 	if tycache, ok := cache[msgDesc.GetName()]; ok && tycache.parseTarget == parseTarget {
 		return tycache.desc, nil
@@ -247,6 +253,8 @@ func parseMessage(ctx context.Context, msgDesc *desc.MessageDescriptor, cache co
 					elem:   t,
 					baseId: FieldNumber(id),
 					msg:    t.msg,
+					// proto3 packs repeated scalars unless the field says [packed = false]
+					unpacked: declaredUnpacked(field),
 				}
 			}
 			fieldDesc.typ = t
